@@ -5,6 +5,7 @@ import (
 	"go/ast"
 	"go/token"
 	"sort"
+	"strconv"
 	"strings"
 )
 
@@ -72,12 +73,14 @@ var bookExternal = map[string]string{
 	"Entity":    "Ent",
 	"bitPool":   "BitPool",
 	"intPool":   "IntPool",
-	"bitMask64": "M64", // Generated/Words.lean (word-level translation of mask64.go)
+	"bitMask64": "M64",  // Generated/Words.lean (word-level translation of mask64.go)
+	"bitMask":   "M256", // the default build's `bitMask` = bitMask256 (mask256.go), Generated/Words.lean
 }
 
 // zero values of external types without Lean defaults
 var bookExtZero = map[string]string{
 	"bitMask64": "(⟨0#64⟩ : M64)",
+	"bitMask":   "(⟨⟨0#64, 0#64, 0#64, 0#64⟩⟩ : M256)",
 }
 
 // methods of external types that another translator owns (word level, Generated/Words.lean):
@@ -90,11 +93,16 @@ type extMethod struct {
 }
 
 var bookExtMethods = map[bookFnKey]extMethod{
-	{"bitMask64", "Set"}:    {"M64.Set", true, nil, true},
-	{"bitMask64", "Clear"}:  {"M64.Clear", true, nil, true},
-	{"bitMask64", "Get"}:    {"M64.Get", false, tyBool, true},
-	{"bitMask64", "IsZero"}: {"M64.IsZero", false, tyBool, false},
-	{"bitMask64", "Reset"}:  {"M64.Reset", true, nil, false},
+	{"bitMask64", "Set"}:       {"M64.Set", true, nil, true},
+	{"bitMask64", "Clear"}:     {"M64.Clear", true, nil, true},
+	{"bitMask64", "Get"}:       {"M64.Get", false, tyBool, true},
+	{"bitMask64", "IsZero"}:    {"M64.IsZero", false, tyBool, false},
+	{"bitMask64", "Reset"}:     {"M64.Reset", true, nil, false},
+	{"bitMask", "OrI"}:         {"M256.OrI", true, nil, false},
+	{"bitMask", "Reset"}:       {"M256.Reset", true, nil, false},
+	{"bitMask", "IsZero"}:      {"M256.IsZero", false, tyBool, false},
+	{"bitMask", "Contains"}:    {"M256.Contains", false, tyBool, false},
+	{"bitMask", "ContainsAny"}: {"M256.ContainsAny", false, tyBool, false},
 }
 
 func (c *bctx) extApp(em extMethod, recv string, args []ast.Expr) string {
@@ -131,6 +139,7 @@ type book struct {
 	intTypes map[string]bool
 	consts   map[string]string
 	fns      map[bookFnKey]*bookFnInfo
+	iotaBase map[*ast.GenDecl]int
 	files    map[bookFnKey]string
 	stack    map[bookFnKey]bool
 	counter  int
@@ -138,7 +147,7 @@ type book struct {
 
 func newBook(p *pkgFiles) *book {
 	b := &book{p: p, structs: map[string]*gstruct{}, intTypes: map[string]bool{}, consts: map[string]string{},
-		fns: map[bookFnKey]*bookFnInfo{}, files: map[bookFnKey]string{}, stack: map[bookFnKey]bool{}}
+		fns: map[bookFnKey]*bookFnInfo{}, files: map[bookFnKey]string{}, stack: map[bookFnKey]bool{}, iotaBase: map[*ast.GenDecl]int{}}
 	basic := map[string]bool{"int": true, "int8": true, "int16": true, "int32": true, "int64": true, "uint": true,
 		"uint8": true, "uint16": true, "uint32": true, "uint64": true, "uintptr": true}
 	for k := range basic {
@@ -159,6 +168,27 @@ func newBook(p *pkgFiles) *book {
 							b.intTypes[sp.Name.Name] = true
 						}
 					case *ast.ValueSpec:
+						// `X T = iota + N` and the names that follow it in a parenthesised block
+						if gd.Tok == token.CONST && gd.Lparen.IsValid() && len(sp.Names) == 1 {
+							idx := 0
+							for j, s2 := range gd.Specs {
+								if s2 == s {
+									idx = j
+								}
+							}
+							if len(sp.Values) == 1 {
+								if base, ok := iotaBase(sp.Values[0]); ok {
+									b.iotaBase[gd] = base // value = base + index of the spec (= iota)
+									b.consts[sp.Names[0].Name] = fmt.Sprint(base + idx)
+								} else {
+									delete(b.iotaBase, gd)
+								}
+							} else if len(sp.Values) == 0 {
+								if base, ok := b.iotaBase[gd]; ok {
+									b.consts[sp.Names[0].Name] = fmt.Sprint(base + idx)
+								}
+							}
+						}
 						if gd.Tok == token.CONST && len(sp.Names) == 1 && len(sp.Values) == 1 {
 							if bl, ok := sp.Values[0].(*ast.BasicLit); ok && bl.Kind == token.INT {
 								b.consts[sp.Names[0].Name] = bl.Value
@@ -209,6 +239,33 @@ func newBook(p *pkgFiles) *book {
 		}
 	}
 	return b
+}
+
+// iotaBase: N of `iota + N` / `N + iota`
+func iotaBase(e ast.Expr) (int, bool) {
+	switch x := e.(type) {
+	case *ast.Ident:
+		if x.Name == "iota" {
+			return 0, true
+		}
+	case *ast.BinaryExpr:
+		if x.Op != token.ADD {
+			return 0, false
+		}
+		lit, id := x.Y, x.X
+		if _, ok := lit.(*ast.BasicLit); !ok {
+			lit, id = x.X, x.Y
+		}
+		bl, ok1 := lit.(*ast.BasicLit)
+		in, ok2 := id.(*ast.Ident)
+		if ok1 && ok2 && in.Name == "iota" && bl.Kind == token.INT {
+			n, err := strconv.Atoi(bl.Value)
+			if err == nil {
+				return n, true
+			}
+		}
+	}
+	return 0, false
 }
 
 func (b *book) goType(e ast.Expr, tparams map[string]bool) *gty {
@@ -348,9 +405,11 @@ type bctx struct {
 }
 
 type bcont struct {
-	fall string                     // text yielded when control falls off the end of the block
-	ret  func(vals []string) string // `return`
-	cont string                     // `continue` ("" outside loops)
+	fall   string                     // text yielded when control falls off the end of the block
+	ret    func(vals []string) string // `return`
+	cont   string                     // `continue` ("" outside loops)
+	brk    string                     // `break`: the loop state once the break flag is set ("" where unsupported)
+	brkVar string
 }
 
 func (c *bctx) bad(n ast.Node, what string) (string, *gty) {
@@ -760,7 +819,7 @@ func terminates(stmts []ast.Stmt) bool {
 	case *ast.ReturnStmt:
 		return true
 	case *ast.BranchStmt:
-		return s.Tok == token.CONTINUE
+		return s.Tok == token.CONTINUE || (s.Tok == token.BREAK && s.Label == nil)
 	case *ast.ExprStmt:
 		if ce, ok := s.X.(*ast.CallExpr); ok {
 			if id, ok := ce.Fun.(*ast.Ident); ok && id.Name == "panic" {
@@ -798,7 +857,7 @@ func (c *bctx) assignedIn(stmts []ast.Stmt) []string {
 	c.mutated = map[string]bool{}
 	nprob := len(problems)
 	var scratch strings.Builder
-	c.block(stmts, bcont{fall: "()", ret: func([]string) string { return "()" }, cont: "()"}, &scratch, "")
+	c.block(stmts, bcont{fall: "()", ret: func([]string) string { return "()" }, cont: "()", brk: "()", brkVar: "brk_scratch"}, &scratch, "")
 	problems = problems[:nprob]
 	var names []string
 	for k := range c.assigned {
@@ -1138,6 +1197,10 @@ func (c *bctx) block(stmts []ast.Stmt, k bcont, out *strings.Builder, ind string
 				fmt.Fprintf(out, "%s%s\n", ind, k.cont)
 				return
 			}
+			if s.Tok == token.BREAK && s.Label == nil && k.brk != "" {
+				fmt.Fprintf(out, "%slet %s := true\n%s%s\n", ind, k.brkVar, ind, k.brk)
+				return
+			}
 			c.bad(s, "branch statement")
 			return
 		case *ast.IfStmt:
@@ -1149,7 +1212,38 @@ func (c *bctx) block(stmts []ast.Stmt, k bcont, out *strings.Builder, ind string
 		case *ast.ForStmt:
 			c.forStmt(s, out, ind)
 		case *ast.DeclStmt:
-			c.bad(s, "declaration")
+			gd, ok := s.Decl.(*ast.GenDecl)
+			if !ok || gd.Tok != token.VAR {
+				c.bad(s, "declaration")
+				continue
+			}
+			for _, sp := range gd.Specs {
+				vs := sp.(*ast.ValueSpec)
+				if vs.Type == nil || len(vs.Values) != 0 {
+					c.bad(s, "var declaration with initialiser")
+					continue
+				}
+				ty := c.b.goType(vs.Type, nil)
+				zero := ""
+				switch ty.kind {
+				case "int":
+					zero = "0"
+				case "bool":
+					zero = "false"
+				case "slice", "map":
+					zero = "[]"
+				case "named":
+					zero = bookExtZero[ty.name]
+				}
+				if zero == "" {
+					c.bad(s, "var declaration of this type")
+					continue
+				}
+				for _, n := range vs.Names {
+					fmt.Fprintf(out, "%slet %s := %s\n", ind, n.Name, zero)
+					c.vars[n.Name] = &bvar{ty: ty}
+				}
+			}
 		default:
 			c.bad(st, "statement")
 		}
@@ -1396,7 +1490,7 @@ func (c *bctx) ifStmt(s *ast.IfStmt, rest []ast.Stmt, k bcont, out *strings.Buil
 		return true
 	case !thenTerm && !elseTerm:
 		// both fall through: the branches yield the variables they assign
-		dummy := bcont{fall: "()", ret: func([]string) string { return "()" }, cont: "()"}
+		dummy := bcont{fall: "()", ret: func([]string) string { return "()" }, cont: "()", brk: "()", brkVar: "brk_scratch"}
 		names := c.assignedBy(func() {
 			var scratch strings.Builder
 			emitBranches(dummy, dummy, elseList, &scratch, "")
@@ -1429,6 +1523,30 @@ func (c *bctx) ifStmt(s *ast.IfStmt, rest []ast.Stmt, k bcont, out *strings.Buil
 	}
 }
 
+// hasBreak: does the statement list contain a `break` of the enclosing loop (not of a nested loop or switch)?
+func hasBreak(stmts []ast.Stmt) bool {
+	for _, st := range stmts {
+		switch s := st.(type) {
+		case *ast.BranchStmt:
+			if s.Tok == token.BREAK && s.Label == nil {
+				return true
+			}
+		case *ast.BlockStmt:
+			if hasBreak(s.List) {
+				return true
+			}
+		case *ast.IfStmt:
+			if hasBreak(s.Body.List) {
+				return true
+			}
+			if s.Else != nil && hasBreak([]ast.Stmt{s.Else}) {
+				return true
+			}
+		}
+	}
+	return false
+}
+
 func (c *bctx) copyVars() map[string]*bvar {
 	m := map[string]*bvar{}
 	for k, v := range c.vars {
@@ -1458,19 +1576,35 @@ func (c *bctx) loop(rangeText string, idxName string, pre func(b *strings.Builde
 		// real (into a discarded buffer) so that a problem is recorded and not silently dropped
 		var discard strings.Builder
 		pre(&discard, "")
-		c.block(body, bcont{fall: "()", cont: "()", ret: func([]string) string { return "()" }}, &discard, "")
+		c.block(body, bcont{fall: "()", cont: "()", brk: "()", brkVar: "brk_scratch", ret: func([]string) string { return "()" }}, &discard, "")
 		c.restoreVars(save)
 		return
 	}
+	// `break`: the loop state carries a flag; once set, the remaining iterations keep the state
+	brkVar := ""
+	if hasBreak(body) {
+		brkVar = c.fresh("brk")
+		fmt.Fprintf(out, "%slet %s := false\n", ind, brkVar)
+		c.vars[brkVar] = &bvar{ty: tyBool}
+		save[brkVar] = &bvar{ty: tyBool}
+		names = append(names, brkVar)
+	}
 	tup := tupleOf(names)
 	fmt.Fprintf(out, "%slet %s := (%s).foldl (fun %s %s =>\n", ind, tup, rangeText, tup, idxName)
-	pre(out, ind+"  ")
-	k := bcont{fall: tup, cont: tup, ret: func([]string) string {
+	bodyInd := ind + "  "
+	if brkVar != "" {
+		fmt.Fprintf(out, "%sif %s then %s else\n", bodyInd, brkVar, tup)
+	}
+	pre(out, bodyInd)
+	k := bcont{fall: tup, cont: tup, brk: tup, brkVar: brkVar, ret: func([]string) string {
 		problem("%s: return inside a loop", c.where)
 		return tup
 	}}
+	if brkVar == "" {
+		k.brk = ""
+	}
 	c.noBind++
-	c.block(body, k, out, ind+"  ")
+	c.block(body, k, out, bodyInd)
 	c.noBind--
 	fmt.Fprintf(out, "%s) %s\n", ind+"  ", tup)
 	c.restoreVars(save)
@@ -1529,7 +1663,7 @@ func (c *bctx) rangeStmt(s *ast.RangeStmt, out *strings.Builder, ind string) {
 			if len(names) == 0 {
 				var discard strings.Builder
 				c.vars[valName] = &bvar{ty: xt.elem}
-				c.block(s.Body.List, bcont{fall: "()", cont: "()", ret: func([]string) string { return "()" }}, &discard, "")
+				c.block(s.Body.List, bcont{fall: "()", cont: "()", brk: "()", brkVar: "brk_scratch", ret: func([]string) string { return "()" }}, &discard, "")
 				c.restoreVars(save)
 				return
 			}
@@ -1634,6 +1768,15 @@ func (b *book) findDecl(key bookFnKey) (*ast.FuncDecl, string) {
 	return nil, ""
 }
 
+// Functions of which only a tail is translated: the statements after the (first) top-level statement
+// whose source text is `after`. The part before it is outside the translatable subset (e.g. surgery on a
+// slice of shared pointers); the tail is bookkeeping over the state that part leaves behind.
+type bookFragment struct{ after, suffix string }
+
+var bookFragments = map[bookFnKey]bookFragment{
+	{"observerManager", "RemoveObserver"}: {"m.totalCount--", "aggregates"},
+}
+
 func (b *book) translate(key bookFnKey) *bookFnInfo {
 	if info, ok := b.fns[key]; ok {
 		return info
@@ -1657,6 +1800,23 @@ func (b *book) translate(key bookFnKey) *bookFnInfo {
 		info.leanName = key.name
 	}
 	b.files[key] = file
+	bodyStmts := fd.Body.List
+	if fr, ok := bookFragments[key]; ok {
+		info.leanName += "_" + fr.suffix
+		at := -1
+		for i, st := range bodyStmts {
+			if strings.TrimSpace(src(st)) == fr.after {
+				at = i
+				break
+			}
+		}
+		if at < 0 {
+			problem("%s.%s: the statement `%s` after which the translated tail starts was not found", key.recv, key.name, fr.after)
+			bodyStmts = nil
+		} else {
+			bodyStmts = bodyStmts[at+1:]
+		}
+	}
 	c := &bctx{b: b, where: file + ":" + info.leanName, vars: map[string]*bvar{}, mutated: map[string]bool{},
 		assigned: map[string]bool{}, info: info}
 	nprob := len(problems)
@@ -1728,7 +1888,7 @@ func (b *book) translate(key bookFnKey) *bookFnInfo {
 	// mutated): translate with placeholders and patch.
 	var body strings.Builder
 	k := bcont{fall: "RESULT[]", ret: func(vals []string) string { return "RESULT[" + strings.Join(vals, " ;; ") + "]" }}
-	c.block(fd.Body.List, k, &body, "  ")
+	c.block(bodyStmts, k, &body, "  ")
 
 	info.mutRecv = c.recv != "" && c.mutated[c.recv]
 	for _, pp := range ptrParams {
@@ -1858,6 +2018,8 @@ var bookGroups = []bookGroup{
 	{"BookLock", "lock.go over the translated bit pool and the word-level mask (mutex calls erased: sequential semantics)", []bookFnKey{
 		{"", "newBitPool"}, {"", "newLock"}, {"lock", "Lock"}, {"lock", "Unlock"}, {"lock", "LockSafe"}, {"lock", "UnlockSafe"},
 		{"lock", "IsLocked"}, {"lock", "Reset"}}, "import Ark.Generated.Words"},
+	{"BookObservers", "events.go: the per-event aggregates (union masks, wildcard flags) that RemoveObserver recomputes — the tail of the function after the observer list was edited", []bookFnKey{
+		{"observerManager", "RemoveObserver"}}, "import Ark.Generated.Words"},
 }
 
 func genBook(p *pkgFiles, files map[string]string) {
@@ -1938,11 +2100,22 @@ func genBook(p *pkgFiles, files map[string]string) {
 			}
 			collect(gs)
 			deriving := "Repr, Inhabited, DecidableEq"
-			if strings.Contains(strings.Join(lines, " "), "M64") {
+			if strings.Contains(strings.Join(lines, " "), "M64") || strings.Contains(strings.Join(lines, " "), "M256") {
 				deriving = "DecidableEq"
 			}
 			fmt.Fprintf(&out, "/-- Go `%s` (the fields used by the translated functions) -/\nstructure G_%s where\n%s  deriving %s\n\n",
 				name, name, strings.Join(append(lines, ""), "\n"), deriving)
+			if deriving == "DecidableEq" {
+				allDefault := true
+				for _, l := range lines {
+					if !strings.Contains(l, ":=") {
+						allDefault = false
+					}
+				}
+				if allDefault { // Go's zero value
+					fmt.Fprintf(&out, "instance : Inhabited G_%s := ⟨{}⟩\n\n", name)
+				}
+			}
 		}
 		var need func(t *gty)
 		need = func(t *gty) {
